@@ -6,9 +6,15 @@ an output is compared with the model.  (Real threads / heap states: double-preci
 import random
 from fractions import Fraction as F
 
+import json
+import os
+import subprocess
+import sys
+
 from .. import gen_sol
-from ..common import Check
-from ..diffrun import case_text
+from ..common import Check, ROOT
+from ..diffrun import case_text, run_prog, split_cases
+from ..solrun import build_hsolq
 from . import solcommon
 
 PID = "C07"
@@ -54,9 +60,120 @@ def make_cases(chk, rng):
     return cases
 
 
+def static_storage_scan(chk):
+    """tie C: regenerate Generated/Statics.lean from the current sources (before the proof stage, whose theorem
+    `no_hidden_static_state` is about that table) and report every mutable static outside the hook header with its location"""
+    p = subprocess.run([sys.executable, os.path.join(ROOT, "translate", "statics.py")], capture_output=True, text=True)
+    chk.cov["statics_translator_cmd"] = "python3 translate/statics.py --repo " + os.environ.get("VERIF_REPO", "/repo")
+    if p.returncode != 0:
+        chk.violation("translator:statics", "the static-storage scanner failed:\n" + (p.stdout + p.stderr)[-3000:], True)
+        return
+    with open(os.path.join(ROOT, "build", "statics.json")) as f:
+        tj = json.load(f)
+    chk.cov["static_storage_files_scanned"] = tj["files"]
+    chk.cov["static_storage_excluded"] = tj["excluded"]
+    chk.cov["mutable_statics"] = tj["entries"]
+    for e in tj["entries"]:
+        if e["file"] != tj["hooks"]:
+            name = (e["decl"].split("=")[0].split() or ["?"])[-1]
+            chk.violation(f"static:{e['file']}:{name}",
+                          f"mutable variable with static storage duration at {e['file']}:{e['line']}: `{e['decl']}`\n"
+                          "It is shared by every solver object of the instantiation (and by all threads, unsynchronised): results can "
+                          "depend on what other instances did before or are doing concurrently.  Theorem C07.no_hidden_static_state "
+                          "(decide over the regenerated table Generated/Statics.lean) no longer holds; the hidden-state probe of this "
+                          "check searches for a history on which it shows.", True)
+
+
+def primer(rng, name, be, pk, scale):
+    """a history that exercises everything once on data of a different magnitude (refinement forced, an update, two solves)"""
+    st = gen_sol.dyadic_settings(rng, max_iter=1, iterative_refinement_always_enabled=1, preconditioner_iter=rng.choice([0, 1]),
+                                 iterative_refinement_max_iter=1, iterative_refinement_static_regularization_rel=F(1, 2 ** 10))
+    h = gen_sol.Hist(rng, name, be, pk, st, dims=(2, rng.choice([0, 1]), 1))
+    pr = h.prob
+    for i in range(pr.n):
+        pr.P[i][i] = pr.P[i][i] + scale
+        pr.maskP[i][i] = True
+    h.setup(dump=False).solve(dump=False, check=False)
+    return h.case(kind="primer")
+
+
+def target(rng, name, be, pk):
+    st = gen_sol.dyadic_settings(rng, max_iter=1, iterative_refinement_always_enabled=1, iterative_refinement_max_iter=1,
+                                 preconditioner_iter=rng.choice([0, 1]), iterative_refinement_static_regularization_rel=F(1, 2 ** 10))
+    h = gen_sol.Hist(rng, name, be, pk, st, dims=(2, rng.choice([0, 1]), rng.choice([0, 1])))
+    h.setup().solve(check=False)
+    if rng.random() < 0.5:
+        h.update(rng.randrange(256), rng.random() < 0.5, dump=False).solve(check=False)
+    return h.case(kind="target")
+
+
+def text_of(cases):
+    return "".join("case %s\n%s\n" % (c["name"], "\n".join(c["lines"])) for c in cases)
+
+
+def hidden_state_probe(chk, rng):
+    """the same history, alone in a fresh process / after other solver instances (other data magnitudes, both preconditioner
+    types) in the same process / twice in a row: the implementation's exact output (white-box dumps included) must be the
+    same string.  Detects any process-level state: statics, globals, caches keyed on addresses."""
+    try:
+        exes = build_hsolq(range(5))
+    except RuntimeError as e:
+        chk.violation("build:hsolq", str(e), True)
+        return
+    reps = 5 if chk.thorough() else 2
+    ncmp = nbad = nlost = 0
+    jobs = []
+    for be in range(5):
+        for pk in (0, 1):
+            for r in range(reps):
+                t = target(rng, f"t{be}{pk}{r}", be, pk)
+                t2 = dict(t, name=t["name"] + "again")
+                prim = [primer(rng, f"p{be}{pk}{r}a", be, 1, F(37)), primer(rng, f"p{be}{pk}{r}b", be, 0, F(5, 8))]
+                jobs.append((be, pk, t, t2, {"alone": [t], "after-other-instances": prim + [t], "twice": [t, t2]}))
+    from concurrent.futures import ThreadPoolExecutor
+
+    def one(args):
+        be, k, cs = args
+        rc, out, err = run_prog([exes[be]], text_of(cs), 40)
+        return rc, split_cases(out)[0]
+    flat = [(be, k, runs[k]) for be, pk, t, t2, runs in jobs for k in ("alone", "after-other-instances", "twice")]
+    with ThreadPoolExecutor(max_workers=14) as ex:
+        results = list(ex.map(one, flat))
+    for ji, (be, pk, t, t2, runs) in enumerate(jobs):
+                outs = {k: results[3 * ji + i] for i, k in enumerate(("alone", "after-other-instances", "twice"))}
+                if True:
+                    pass
+                ref = outs["alone"][1].get(t["name"])
+                if outs["alone"][0] != 0 or ref is None:
+                    nlost += 1
+                    continue    # harness trouble on the target alone is the business of the correspondence part
+                for k, nm in (("after-other-instances", t["name"]), ("twice", t2["name"])):
+                    rc, got = outs[k]
+                    cur = got.get(nm)
+                    if rc != 0 or cur is None:
+                        nlost += 1
+                        continue
+                    ncmp += 1
+                    if cur != ref:
+                        nbad += 1
+                        d = next((i for i in range(max(len(cur), len(ref))) if i >= len(cur) or i >= len(ref) or cur[i] != ref[i]), 0)
+                        if nbad <= 3:
+                            chk.violation(f"impl:hidden-state:be{be}:{k}",
+                                          f"the same call history gives different exact results when run {k} in one process than when run "
+                                          f"alone in a fresh process (back end {be}, preconditioner {'identity' if pk else 'ruiz'})\n"
+                                          f"first differing output line {d}:\n  alone: {ref[d][:300] if d < len(ref) else '<missing>'}\n"
+                                          f"  {k}: {cur[d][:300] if d < len(cur) else '<missing>'}\n\n"
+                                          "input (all cases of the process, in order; compare with the last case run alone):\n" + text_of(runs[k]))
+    chk.cov["hidden_state_comparisons"] = ncmp
+    chk.cov["hidden_state_differences"] = nbad
+    chk.cov["hidden_state_runs_lost_to_timeout"] = nlost
+    chk.add("evaluations", 3 * 10 * reps)
+
+
 def run(replay=None):
     chk = Check(PID, "proof")
     rng = random.Random(chk.seed * 2003 + 7)
+    static_storage_scan(chk)
     proof_ok = solcommon.prepare(chk, leancheck=chk.thorough())
     if proof_ok is None:
         return chk.finish()
@@ -100,6 +217,7 @@ def run(replay=None):
                                           "a result vector contains a never-written value after a call in a run without numeric traps\n"
                                           f"case {c['name']} meta={c['meta']}\n\ninput:\n" + case_text(c))
                         break
+    hidden_state_probe(chk, random.Random(chk.seed * 7919 + 77))
     chk.cov["ops_monitored"] = nops
     chk.cov["histories_with_uninitialised_operand"] = nuninit
     chk.cov["histories_with_indeterminate_output"] = npoison
